@@ -185,6 +185,14 @@ def _lib_events():
         "broadcast_leading": lambda: ("PAIR", ag.grad(lambda u: np.sum((u + _Y3()) * _W3()))(onp.array([0.1, 0.2, 0.3])), _W3().sum(0)),
         "einsum_trailing_ellipsis": lambda: ("PAIR", ag.grad(lambda v: np.sum(np.einsum(v, [0, Ellipsis], _Y3(), [0, Ellipsis], [0, Ellipsis]) * _W3()))(onp.array([0.1, 0.2, 0.3])),
                                              (_Y3() * _W3()).sum(1)),
+        # the same rule used twice on same-shape arrays inside ONE second-order differentiation: state a rule parks between the inner and the
+        # outer backward pass (an index permutation, a broadcast scale, an index list) is overwritten by the second use
+        "hess_two_sorts": lambda: ("PAIR", onp.round(ag.hessian(lambda x: np.sum(np.sort(x) ** 2 * onp.array([1.0, 2.0, 4.0])) + np.sum(np.sort(-x) ** 2 * onp.array([8.0, 16.0, 32.0])))(
+            onp.array([0.5, 0.25, 1.0])), 9) + 0.0, onp.diag([36.0, 66.0, 24.0])),
+        "hess_two_vars": lambda: ("PAIR", onp.round(ag.hessian(lambda x: 4.0 * np.var(x) + 8.0 * np.var(-x[::-1]) + 16.0 * np.std(2.0 * x) ** 2)(
+            onp.array([0.5, 0.25, 1.0, -2.0])), 9) + 0.0, 76.0 * (0.5 * onp.eye(4) - 0.125 * onp.ones((4, 4)))),
+        "hess_two_takes": lambda: ("PAIR", onp.round(ag.hessian(lambda x: np.sum(x[[0, 2]] ** 2 * onp.array([1.0, 2.0])) + np.sum(x[[1, 2]] ** 2 * onp.array([4.0, 8.0])) + np.max(x) ** 2 + np.max(-x) ** 2)(
+            onp.array([0.5, 0.25, 1.0])), 9) + 0.0, onp.diag([2.0, 10.0, 22.0])),
         "take_float32_index_then_int64": lambda: ("PAIR", [ag.grad(lambda x: np.sum(x[onp.array([1, 1], dtype=onp.int32)]))(onp.array([0.3, 0.6])),
                                                            ag.grad(lambda x: np.sum(x[onp.array([1, 0], dtype=onp.int64)] * onp.array([1.0, 3.0])))(onp.array([0.3, 0.6]))],
                                                   [onp.array([0.0, 2.0]), onp.array([3.0, 1.0])]),
@@ -251,7 +259,7 @@ LIB_EVENTS = ["eigh_degenerate", "eigh_degenerate3", "inv_singular", "cholesky_n
               "sqrt_at_zero", "bad_shape_forward", "int_argument", "fwd_inv_singular", "flatten_unflattenable_leaf", "flatten_func_bad_then_good",
               "det_singular_twice", "const_graph_leaky", "revconst_reverse", "revconst_forward", "nested_type_error_rr", "nested_type_error_ff", "nested_type_error_rf",
               "nested_vector_output_error", "nested_missing_rule_error", "index_int_list", "index_bool_list", "index_int_list01", "index_bool_list01",
-              "broadcast_leading", "einsum_trailing_ellipsis", "take_float32_index_then_int64"]
+              "broadcast_leading", "einsum_trailing_ellipsis", "take_float32_index_then_int64", "hess_two_sorts", "hess_two_vars", "hess_two_takes"]
 
 
 def run_event(ev):
